@@ -5,7 +5,7 @@ import json
 
 from hypothesis import strategies as st
 
-from anytree import LightNodeMixin, Node, NodeMixin, cachedsearch
+from anytree import LightNodeMixin, Node, NodeMixin, RenderTree, SymlinkNode, cachedsearch
 from anytree.exporter import DictExporter, DotExporter, JsonExporter, MermaidExporter, UniqueDotExporter
 
 from .. import mut
@@ -133,6 +133,11 @@ def extra_observe(universe, labels, dict_based):
         o = {}
         stop = lambda n: labels.label(n) % 4 == 3  # noqa: E731
         filt = lambda n: labels.label(n) % 5 != 4  # noqa: E731
+        # a SymlinkNode pointing at the node forwards attribute reads - without asking the target whether it is "true" or how long it is
+        link = SymlinkNode(node)
+        o["link-name"] = safe(lambda: link.name)
+        o["link-missing"] = safe(lambda: getattr(link, "no_such_attribute", "absent"))
+        o["link-by_attr"] = safe(lambda: RenderTree(link).by_attr("name"))
         o["cachedsearch-findall"] = safe(lambda: labels.labels(cachedsearch.findall(node, filter_=filt)))
         o["cachedsearch-findall_by_attr"] = safe(lambda: labels.labels(cachedsearch.findall_by_attr(node, "n1")))
         o["cachedsearch-find_by_attr"] = safe(lambda: labels.label(cachedsearch.find_by_attr(node, "n0")))
